@@ -412,6 +412,12 @@ impl<'a> Explorer<'a> {
             Op::Recv(c) | Op::TryRecv(c) | Op::DropRx(c) if ts.rx & bit(*c) == 0 => Some(SKIP),
             Op::Spawn(c) if s.tasks[*c].status != Status::NotSpawned || *c == 0 => Some(SKIP),
             Op::Join(c) if ts.handles & bit(*c) == 0 && ts.joining != Some(*c as u8) => Some(SKIP),
+            // awaiting the JoinHandle of a future that has already finished completes in its first poll,
+            // without any scheduling point
+            Op::Join(c) if self.is_async(*c) && s.tasks[*c].status == Status::Finished && ts.joining.is_none() => {
+                s.tasks[t].handles &= !bit(*c);
+                Some(if s.tasks[*c].cancelled { 3 } else { 1 })
+            }
             Op::Park if is_async => Some(SKIP),
             Op::Abort(c) | Op::IsFinished(c) if ts.handles & bit(*c) == 0 || !self.is_async(*c) => Some(SKIP),
             Op::DropHandle(c) => Some(if ts.handles & bit(*c) == 0 {
@@ -1338,7 +1344,7 @@ impl<'a> Explorer<'a> {
                 self.settle(&mut n, t);
                 one(n)
             }
-            Op::ResetSteps => {
+            Op::ResetSteps | Op::Tls(_) | Op::Lazy(_) | Op::StaticOnce | Op::Label(_) | Op::Scope(_) => {
                 // not modelled (never generated for model-based checks)
                 self.done(&mut n, t, 0);
                 one(n)
